@@ -509,6 +509,23 @@ def dtype_inheritance_sites(prog: Program, funcs: list[FuncInfo]) -> list[tuple[
                     short = fn.split(".")[-1]
                     if short in LIKE_ALLOCATORS and v.args and not any(k.arg == "dtype" for k in v.keywords):
                         src_arr = v.args[0]
+                    elif short in (*LIKE_ALLOCATORS, "zeros", "empty", "ones", "full") and any(k.arg == "dtype" for k in v.keywords):
+                        # an explicit dtype that is itself read off a caller-supplied array: `np.empty(shape, dtype=grid.dtype)`
+                        dt = next(k.value for k in v.keywords if k.arg == "dtype")
+                        seen_: set[str] = set()
+
+                        def _expand(e_: ast.expr, depth: int = 0) -> list[ast.expr]:
+                            if isinstance(e_, ast.Name) and e_.id not in params and e_.id not in seen_ and depth < 4:
+                                seen_.add(e_.id)
+                                defs = _local_defs(f, e_.id)
+                                return [y for d_ in defs for y in _expand(d_, depth + 1)] or [e_]
+                            if isinstance(e_, ast.IfExp):
+                                return _expand(e_.body, depth + 1) + _expand(e_.orelse, depth + 1)
+                            return [e_]
+                        alts = _expand(dt)
+                        plain = [a_ for a_ in alts if isinstance(a_, ast.Attribute) and a_.attr == "dtype"]
+                        if plain and len(plain) == len(alts):
+                            src_arr = plain[0].value
                     elif short == "copy" and fn.startswith(("np.", "numpy.")) and v.args:
                         src_arr = v.args[0]
                     elif isinstance(v.func, ast.Attribute) and v.func.attr == "copy" and not v.args:
